@@ -29,3 +29,29 @@ Theorem c03_reserved_ids_are_created :
     exists ks i m', predict n (next_key_iter m) m = Some (ks, i) /\ inserts n f m = Some (ks, m') /\ SmInv m'.
 Proof. exact nki_predicts. Qed.
 Print Assumptions c03_reserved_ids_are_created.
+
+Require Import EV.World EV.Store EV.Effects EV.ReserveW.
+
+(* world level.  reserved_ids w ks : the reservation cursor is where NextKeyIter stands after
+   predicting, on the current entity map, the ids ks handed out since the last materialisation.
+   (1) every further reservation (World::spawn, Sender::spawn) extends ks by the id it returns *)
+Theorem c03_reservation_extends_the_promise :
+  forall (w : world) (ks : list key), reserved_ids w ks ->
+    match reserve w with
+    | ROk k w' => reserved_ids w' (ks ++ (k :: nil))
+    | RFail _ w' => w' = w
+    end.
+Proof. exact reserve_ReserveInv. Qed.
+Print Assumptions c03_reservation_extends_the_promise.
+
+(* (2) on a consistent world, ReservedEntities::spawn_all creates exactly the promised ids, as
+   component-less entities, changes no existing entity, and leaves no reservation pending
+   (unless the 2^32-1 slots would be exceeded) *)
+Theorem c03_promised_ids_are_exactly_the_ids_created :
+  forall (w : world) (ks : list key),
+    WInv w -> reserved_ids w ks -> N.of_nat (length (slots (w_ents w))) + w_rcnt w <= U32MAX ->
+    exists w', spawn_all w = ROk tt w' /\ WInv w' /\
+               (forall k, In k ks -> sm_get k (w_ents w') <> None /\ forall c, abs w' k c = None) /\
+               ext_by_spawn w w' /\ w_rcnt w' = 0 /\ reserved_ids w' nil.
+Proof. exact reserved_ids_are_created. Qed.
+Print Assumptions c03_promised_ids_are_exactly_the_ids_created.
